@@ -4,6 +4,6 @@ CONSTANTS
   Mode = "typed"
   MaxLines = 0
   MaxDepth = 2
-  Rich = FALSE
+  Rich = TRUE
   KeepUnmapped = TRUE
   CauseCounts = FALSE
